@@ -9,8 +9,8 @@ CONTRIB = {
         level="proof",
         level_text="Lean theorems: the field extraction from native sources is exact and the rounding into the target is the target's "
                    "nearest-value relation (posit: complete, every configuration and source; cfloat: normal sources into the normal range, "
-                   "special values; fixpnt: integers and IEEE sources correctly rounded then wrapped for nbits <= 64, Saturate under explicit guards; "
-                   "dd/qd: exact for double / float / long double on the double grid, qd(int64) exact; lns: nearest to the observed log2; "
+                   "special values; fixpnt: integers and IEEE sources correctly rounded then wrapped (Modulo) or clamped (Saturate) for every nbits and every value of the native types; "
+                   "dd/qd: exact for double / float / every 64-bit integer / long double on the double grid; lns: nearest to the observed log2; "
                    "remaining regions stated and either proved false with witnesses or left open), plus differential "
                    "correspondence with sources generated from the target lattice (every value, every midpoint, +-1 source ulp)",
         level_note=_NOTE + "; std::frexp / fpclassify / log2 behave as specified",
@@ -21,7 +21,8 @@ CONTRIB = {
         level="proof",
         level_text="Lean theorems: read-back to native types is exact and round-trips (posit: complete under the decidable guard that the "
                    "native type is wide enough; cfloat to_native = value for es <= 11; areal lower bound exact for es <= 7; fixpnt exact read-back "
-                   "when nbits <= the significand, to_signed = floor; double(dd) = nearest double), integer casts "
+                   "when nbits <= the significand, integer reads = truncation toward zero; double(dd) = nearest double, integer reads of a "
+                   "normalised dd / qd = the value truncated toward zero), remaining float-detour integer casts "
                    "modelled through the float detour the code takes; every encoding of small configurations read back and round-tripped",
         level_note=_NOTE + "; IEEE hardware arithmetic on exactly representable products",
         explanation="read-back of posit / cfloat / areal / fixpnt / dd / qd to float, double, long double and the integer types, and the round trip",
@@ -39,7 +40,7 @@ CONTRIB = {
         level="proof",
         level_text="Lean theorems: posit<n1,es1> -> posit<n2,es2> is decode (exact) followed by one correct rounding, identity on representable "
                    "values, widen-then-narrow is the identity — for every pair of configurations; integer<->integer resizing is C08_convert; fixpnt size "
-                   "adapter (right only for same-rbits widening and fewer-rbits narrowing: D12 and three more defects), cfloat->cfloat and lns->lns "
+                   "adapter (every pair of configurations, Modulo and Saturate, after the repair of D12 and three more defects), cfloat->cfloat and lns->lns "
                    "composition theorems, posit<->integer adapters; "
                    "9x9 matrix of posit configurations with every source encoding <= 12 bits through the real constructors",
         level_note=_NOTE,
